@@ -459,6 +459,19 @@ def run(ctx):
             ctx.inst("C10.R3", "postfix=%s~infix=%s#unspaced" % (p, n2), alt_ok,
                      "the look-ahead of %s refuses %r; `x%sy` then %s" % (p, l2, joined, "reads as another operator" if alt_ok else "is a parse error although `x%s %s y` is a program" % (pl, l2)), "blots-core/src/grammar.pest")
     dot_needs_digit(ctx, "C10.R3", G)
+    # a prefix operator applies to whatever operand follows: its rule carries no look-ahead that refuses some way an operand can start
+    # (`"-" ~ !ASCII_DIGIT` hands `-3` to the literal's own sign: `-3!` becomes (-3)! instead of -(3!))
+    operand_first = G.first_chars({"k": "seq", "a": {"k": "rep", "e": {"k": "ident", "v": "prefix_usage"}}, "b": {"k": "ident", "v": "term"}})
+    for pr in G.alt_names_safe("prefix_op"):
+        sq = G.seq(G.expr(pr))
+        refused = set()
+        for x in sq[1:]:
+            if x["k"] in ("neg", "neg_pred"):
+                try:
+                    refused |= (G.first_chars(x["e"]) & operand_first)
+                except Exception:
+                    pass
+        ctx.inst("C10.R3", "prefix=%s#applies-to-every-operand" % pr, not refused, "operand starts the rule's look-ahead refuses: %s" % (sorted(refused)[:12] or "none"), "blots-core/src/grammar.pest")
     # prefix literals vs infix: prefix_usage is tried only at operand start, no shadowing possible; recorded
     # ---------------- R4 keyword guards
     ctx.rule("C10.R4", "every word-like literal that is tried where an identifier is also admissible is followed by !identifier_rest or mandatory whitespace", floor=8)
